@@ -18,13 +18,16 @@ inline bool myisnumber(const String& s, char dec)
 	int n = s.length();
 	if (!myisdigit(p[0]) && p[0] != '-' && p[0] != dec)
 		return false;
+	bool digits = myisdigit(p[0]);
 	for (int i = 1; i < n; i++)
 	{
 		char c = p[i];
-		if (!myisdigit(c) && c != '-' && c != '+' && c != dec && c != 'e' && c != 'E')
+		if (myisdigit(c))
+			digits = true;
+		else if (c != '-' && c != '+' && c != dec && c != 'e' && c != 'E')
 			return false;
 	}
-	return true;
+	return digits;
 }
 
 void TabularDataFile::init()
